@@ -252,11 +252,49 @@ def wide_file(ck: Check, root: Node, reqs: list[str], impl: list[str], inputs: l
         inputs.append({**inp, "what": "rows of the RECFM N file"})
 
 
+def tiny_records(ck: Check) -> None:
+    """the smallest rows there are: a one-byte counter followed by its table, so that a zero count is a record of ONE byte -- first,
+    in the middle and last in a block (RECFM VB), alone in a block, and under V and N"""
+    import stingray.estruct as E
+    from stingray.workbook import COBOL_EBCDIC_File
+
+    rng = ck.rng
+    ct = Node(5, "CT", pic="9", width=1)
+    tbl = Node(5, "TBL", pic="X(3)", width=3, odo=(0, 5, "CT"))
+    root = Node(1, "TINY-REC", children=[ct, tbl])
+    number_fillers(root)
+    text = render([root])
+    schema = load(build_docs(text)[0])
+    shapes = [[[2, 0, 5, 0], [0, 3], [1], [4, 0, 0]], [[0]], [[0], [0], [1, 0]],
+              [[rng.randint(0, 5) for _ in range(rng.randint(1, 4))] for _ in range(rng.randint(1, 4))]]
+    for blocks in shapes:
+        recs_b = [[build_record(root, {"CT": c}, salt=3 * k + j) for j, c in enumerate(b)] for k, b in enumerate(blocks)]
+        recs = [r for b in recs_b for r in b]
+        for recfm, data, cls in (("N", b"".join(recs), None), ("V", write_v(recs), E.RECFM_V), ("VB", write_vb(recs_b), E.RECFM_VB)):
+            inp = {"copybook": text, "recfm": recfm, "counts_per_block": blocks}
+            ck.case(("tiny", recfm, str(blocks)), feature=f"file/{recfm}/one-byte-records")
+            ck.oracle_evaluations += 1
+            got: list[bytes] = []
+            err = None
+            try:
+                wb = COBOL_EBCDIC_File("x.data", file_object=io.BytesIO(data), recfm_class=cls, lrecl=1)
+                for row in wb.sheet("").set_schema(schema).rows():
+                    got.append(bytes(row.instance[:row.nav.location.end]))  # type: ignore[attr-defined]
+                    if len(got) > len(recs) + 5:
+                        break
+            except BaseException as ex:  # noqa: BLE001
+                err = err_enum(ex)
+            if err or got != recs:
+                ck.fail("odo-file", f"RECFM {recfm}: counts per block {blocks}: {len(recs)} records written, read back {len(got)}"
+                                    + (f", {err}" if err else ""), inp)
+
+
 def explore(ck: Check, n_trees: int, n_big: int) -> None:
     rng = ck.rng
     reqs: list[str] = []
     impl: list[str] = []
     inputs: list[Any] = []
+    tiny_records(ck)
     for _ in range(max(2, n_big)):
         wide_file(ck, wide_tree(rng), reqs, impl, inputs)
     made = 0
